@@ -623,7 +623,8 @@ fn shape(k: usize, r: &mut Rng) -> (Vec<P2>, Vec<Vec<P2>>, &'static str) {
     }
 }
 fn shape_case(k: usize, r: &mut Rng) -> PolyCase {
-    let fr = Frame::random(r, 100.0);
+    // (f64 build: Frame::random as before; f32 build: mostly coordinate planes, see frame_for)
+    let fr = frame_for(r, 100.0);
     let (mut o, hs, name) = shape(k, r);
     if r.chance(0.5) { o = reversed(&o); }
     o = rotate_start(&o, r.below(o.len() as u64) as usize);
